@@ -247,6 +247,8 @@ class G(object):
         node = {'t': 'equation', 'star': False, 'words': [self.mark()]}      # equation* is amsmath, not base LaTeX
         if self.o['eqnarray'] and r.random() < 0.3:
             node = {'t': 'eqnarray', 'star': r.random() < 0.3, 'rows': [{'words': [self.mark()], 'nonumber': r.random() < 0.3} for _ in range(r.randint(1, 3))]}
+            # a row end directly before the end of the environment: LaTeX sets (and numbers) the empty row it opens
+            node['trail'] = r.random() < 0.25
             if node['star']:
                 # eqnarray*: no row is numbered (the numbered class derives from the starred one in plasTeX)
                 for row in node['rows']:
@@ -493,7 +495,7 @@ def p_blocks(blocks, ind=''):
             for row in b['rows']:
                 rows.append('%s & = & x%s%s' % (row['words'][0], ' \\nonumber' if row['nonumber'] else '', '\\label{%s}' % row['label'] if row.get('label') else ''))
             env = 'eqnarray*' if b.get('star') else 'eqnarray'
-            out.append('\\begin{%s}\n%s\n\\end{%s}\n' % (env, ' \\\\\n'.join(rows), env))
+            out.append('\\begin{%s}\n%s%s\n\\end{%s}\n' % (env, ' \\\\\n'.join(rows), ' \\\\' if b.get('trail') else '', env))
         elif t == 'verbatim':
             env = 'verbatim*' if b['star'] else 'verbatim'
             out.append('\\begin{%s}\n%s\n\\end{%s}\n' % (env, b['body'], env))
